@@ -36,6 +36,14 @@ def run(ctx):
         "frames are within the client's int32 length (size_le_limits: max-msg-size + 30 < 2^31)",
         "connection model: IDENTIFY (feature upgrades, output buffer change) is accepted only before SUB and "
         "message frames are sent only to subscribed clients — as protocolV2.IDENTIFY / messagePump enforce",
+        "PARTIAL (audit A2, until fix F30 is committed): on the tree before F30 'every output byte goes to the negotiated "
+        "transport' holds only for connections that never change the output buffer after an upgrade "
+        "(hypothesis NoRebufferAfterUpgrade of Props.C07Stack.output_on_negotiated_transport_partial; witness "
+        "output_on_negotiated_transport_false, open finding second-identify-cleartext); upgrade_loses_nothing speaks about "
+        "the F30 tree (fixed_tree_is_round6_model)",
+        "writer-stack model: an upgrade installs a clean new stack; before F30 snappy negotiated by a later IDENTIFY after "
+        "deflate is not (open finding snappy-after-deflate-garbled, oracle-only replay), outside the model; the server's "
+        "read side after a second upgrade is not modelled",
     ]
     ctx.rule = ("codec: generated envelopes (every timestamp class incl. negative / extreme, attempts 0/255/256/65535/"
                 "random, ids, bodies of size 0..max+1 around 26/64/4096/16384 with classes random, all-zero, "
